@@ -53,17 +53,24 @@ func TestVerifConfInit(t *testing.T) {
 			report("init-config-once-in-order", "hook.(*Manager).Init", fmt.Sprintf("--config was run for %v, want each of %v once in this order", calls, want))
 		}
 	}
-	// a hook whose --config fails makes Init fail with an error naming it
-	{
+	// a hook whose --config run fails, or prints something that is no valid configuration, makes
+	// Init fail with an error naming it - whatever it printed to stdout or stderr before
+	for _, bad := range []struct{ name, body string }{
+		{"exit 3 silently", "exit 3\n"},
+		{"valid config on stdout, then exit 3, nothing on stderr", "echo '{\"configVersion\":\"v1\",\"onStartup\":10}'\nexit 3\n"},
+		{"valid config on stdout, message on stderr, exit 1", "echo 'configVersion: v1'\necho 'onStartup: 1'\necho oops >&2\nexit 1\n"},
+		{"exit 0 with an invalid configuration", "echo 'configVersion: v1'\necho 'onStartup: soon'\n"},
+		{"exit 0 with an unknown field", "echo 'configVersion: v1'\necho 'onStartup: 1'\necho 'surprise: true'\n"},
+	} {
 		evaluated++
 		hooksDir := t.TempDir()
 		os.WriteFile(filepath.Join(hooksDir, "good.sh"), []byte("#!/usr/bin/env bash\necho 'configVersion: v1'\necho 'onStartup: 1'\n"), 0o755)
-		os.WriteFile(filepath.Join(hooksDir, "zbad.sh"), []byte("#!/usr/bin/env bash\nexit 3\n"), 0o755)
+		os.WriteFile(filepath.Join(hooksDir, "zbad.sh"), []byte("#!/usr/bin/env bash\n"+bad.body), 0o755)
 		hm := newHookManager(t, hooksDir)
 		err := hm.Init()
 		if err == nil || !strings.Contains(err.Error(), "zbad.sh") {
-			report("init-failing-config-not-reported", "hook.(*Manager).loadHook", fmt.Sprintf("Init error = %v, want an error naming zbad.sh", err))
+			report("init-failing-config-not-reported", "hook.(*Manager).loadHook", fmt.Sprintf("hook zbad.sh (%s): Init error = %v, want an error naming zbad.sh", bad.name, err))
 		}
 	}
-	fmt.Printf("CONF-STATS evaluated=%d scope=3 hook trees with directory/file name-prefix collisions (real scripts, --config logged) + one failing --config\n", evaluated)
+	fmt.Printf("CONF-STATS evaluated=%d scope=3 hook trees with directory/file name-prefix collisions (real scripts, --config logged) + five hooks whose --config run fails or prints an invalid configuration (with and without output on stdout / stderr)\n", evaluated)
 }
